@@ -313,7 +313,9 @@ mint_prop("C09", "Keyset lifecycle: deterministic keys, one active keyset, old e
     "That keyset id and the 60 keys are the NUT-02 function of (seed, index) is checked bit for bit against the Lean reference Spec.MintKeys by stream deriv (C11); the C09 monitors in mint-seq/mint-mon observe ids, keys, fees and the active flag across rotations and restarts of the real mint.",
     streams=("mint-seq", "mint-mon", "deriv"))
 mint_prop("C15", "State check and restore tell the truth about everything the mint ever did", ["Gonuts.Props.C15"],
-    "PROVED for the model: the state-check answer has the request's length and order and entry i is stateOf over the WHOLE tables after re-polling (checkstate_truth, stateOf_meaning: SPENT with stored witness iff in spent, else PENDING iff locked, else UNSPENT incl. every unknown/malformed Y); restore returns exactly the requested messages that were signed, in order, with the stored signature, and writes nothing (restore_truth, restore_only_signed, restore_all_signed); every issuance path stores what it returns and every spend path stores its inputs (swap_stores, mint_stores; melt paths in C05); stored signatures and spent rows are never altered by any effect of any program (signature_forever*, C01.spent_forever_*).")
+    "PROVED for the model: the state-check answer has the request's length and order and entry i is stateOf over the WHOLE tables after re-polling (checkstate_truth, stateOf_meaning: SPENT with stored witness iff in spent, else PENDING iff locked, else UNSPENT incl. every unknown/malformed Y); restore returns exactly the requested messages that were signed, in order, with the stored signature, and writes nothing (restore_truth, restore_only_signed, restore_all_signed); every issuance path stores what it returns and every spend path stores its inputs (swap_stores, mint_stores; melt paths in C05); stored signatures and spent rows are never altered by any effect of any program (signature_forever*, C01.spent_forever_*).",
+    "Stream mint-crash (storage error injected at every call of swap / mint, then restart) adds: signatures a request RETURNED are restorable afterwards.",
+    streams=("mint-seq", "mint-mon", "mint-crash"), shards={"mint-crash": 4}, qshards={"mint-crash": 3})
 mint_prop("C16", "Reported balances are exact and configured limits are enforced", ["Gonuts.Props.C16"],
     "PROVED for the model: the per-keyset views are exact sums over ALL stored signatures / spent proofs, one row per keyset with rows, failing iff a sum reaches 2^63 (groupSum_exact); the balance query reports those, their UInt64 difference, and nut04.disabled iff MaxBalance>0 and balance>=MaxBalance (balance_report); a mint quote is created only if amount<=MaxAmount (when set) and balance+amount<=MaxBalance in the Go's uint64 arithmetic, with amount<2^63 so that the comparison is exact in N (mintquote_accept_only_if, balance_limit_exact); a melt quote only within the melt maximum (meltquote_accept_only_if).",
     "Non-negativity of the balance (redeemed <= issued) follows from the ledger inequality, which is monitor-checked, not yet a theorem (see C02).")
